@@ -237,16 +237,20 @@ static void laws(unsigned long long& unit)
 					if(!mc::same_bits(p.first, acc ? x1 : x2) || !mc::same_bits(p.second, acc ? y1 : y2)) fail("laws", key, "acceptance_rule_wrong", "returned (" + mc::dec(p.first) + "," + mc::dec(p.second) + ")");
 				}
 	// Poisson: Knuth's product rule, all uniform sequences over a 12-grid up to length 6
-	for(double mean : {0.01, 0.5, 2.0})
-		for(int first = 0; first < 12; first++)
+	// (for small means the decisive uniforms lie within `mean` of 0 and 1: three letters relative to the mean join the grid,
+	//  so that both sides of every comparison are taken at every position)
+	for(double mean : {0.01, 0.03, 0.049, 0.5, 2.0})
+		for(int first = 0; first < 15; first++)
 		{
 			if(!mc::mine(unit++)) continue;
 			int L = mc::thorough() ? 6 : 5;
-			mc::Product P(std::vector<int>(L - 1, 12));
+			auto letter = [&](int i) -> ld { return i < 12 ? (i + 0.5L) / 12 : i == 12 ? (ld)mean / 2 : i == 13 ? 1 - (ld)mean / 2 : 1 - (ld)mean / 4; };
+			mc::Product P(std::vector<int>(L - 1, mean < 0.1 ? 15 : 12));
+			if(first >= 12 && !(mean < 0.1)) continue;
 			do
 			{
-				std::vector<ld> u{(first + 0.5L) / 12};
-				for(int i : P.idx) u.push_back((i + 0.5L) / 12);
+				std::vector<ld> u{letter(first)};
+				for(int i : P.idx) u.push_back(letter(i));
 				for(int i = 0; i < 40; i++) u.push_back(1e-6L);   // forces termination after the scripted prefix
 				std::mt19937 g = mc::scripted_uniforms(u);
 				unsigned k = Sample_Poisson(g, mean);
@@ -437,6 +441,117 @@ static void metropolis(unsigned long long& unit)
 		}
 }
 
+// ---- targets with bounded support, plateaus and zero-density regions: reproducibility, purity, containment ---------------------
+static void targets(unsigned long long& unit)
+{
+	struct T1 { const char* name; std::function<double(double)> pdf; double slo, shi; };	// support [slo,shi]
+	std::vector<T1> t1 = {
+		{"positive_bump", pdf1, -INFINITY, INFINITY},
+		{"triangle", [](double x) { return std::max(0.0, 1.0 - std::fabs(x)); }, -1, 1},
+		{"box_1_2", [](double x) { return (x > 1 && x < 2) ? 1.0 : 0.0; }, 1, 2},
+		{"half_exponential", [](double x) { return x > 0 ? std::exp(-x) : 0.0; }, 0, INFINITY},
+	};
+	std::vector<V> domains = {V{}, V{-3, 4}, V{0.5, 2.5}};
+	unsigned nseeds = mc::thorough() ? 32 : 8;
+	for(auto& t : t1)
+		for(auto& dom : domains)
+			for(double sigma : {0.3, 1.5})
+			{
+				if(!mc::mine(unit++)) continue;
+				for(unsigned seed = 0; seed < nseeds; seed++)
+				{
+					std::string key = std::string("Sample_Metropolis,target=") + t.name + ",domain=" + (dom.empty() ? "unbounded" : mc::decv(dom)) + ",sigma=" + mc::dec(sigma) + ",seed=" + std::to_string(seed);
+					std::mt19937 g1(seed), g2(seed);
+					unsigned long before = g_foreign_entropy;
+					V a, b;
+					if(mc::library_exits([&]() { a = Sample_Metropolis(g1, t.pdf, sigma, 40, 3, 50, dom); b = Sample_Metropolis(g2, t.pdf, sigma, 40, 3, 50, dom); })) { fail("targets", key, "terminated_process", "ended the process"); continue; }
+					g_cases++;
+					if(g_foreign_entropy != before) { fail("targets", key, "foreign_entropy_used", "random_device/rand/random/getrandom consulted"); g_foreign_entropy = before; }
+					bool same = a.size() == b.size() && g1 == g2;
+					for(size_t i = 0; same && i < a.size(); i++) same = mc::same_bits(a[i], b[i]);
+					if(!same) fail("targets", key, "not_reproducible", "equal generator states gave different chains or left different states");
+					if(a.size() != 40) fail("targets", key, "wrong_number_of_samples", std::to_string(a.size()) + " samples for sample=40");
+					bool inside = false;
+					for(double x : a)
+					{
+						if(!dom.empty() && !(x >= dom[0] && x <= dom[1])) { fail("targets", key, "outside_domain", "x = " + mc::dec(x)); break; }
+						bool in = x >= t.slo && x <= t.shi && t.pdf(x) > 0;
+						if(inside && !in) { fail("targets", key, "left_the_support", "a chain that had reached the support returned x = " + mc::dec(x) + " where the density vanishes"); break; }
+						inside = inside || in;
+					}
+				}
+			}
+	// 2D
+	struct T2 { const char* name; std::function<double(double, double)> pdf; };
+	std::vector<T2> t2 = {
+		{"positive_bump", pdf2},
+		{"disc", [](double x, double y) { return x * x + y * y < 1 ? 1.0 : 0.0; }},
+		{"half_plane_gauss", [](double x, double y) { return x > 0 ? std::exp(-x * x - y * y) : 0.0; }},
+	};
+	std::vector<V> dom2 = {V{}, V{-2, 3, -1, 1.5}, V{-0.5, 0.5, -3, 3}};
+	for(auto& t : t2)
+		for(auto& dom : dom2)
+		{
+			if(!mc::mine(unit++)) continue;
+			for(unsigned seed = 0; seed < nseeds; seed++)
+			{
+				std::string key = std::string("Sample_Metropolis_2D,target=") + t.name + ",domain=" + (dom.empty() ? "unbounded" : mc::decv(dom)) + ",seed=" + std::to_string(seed);
+				std::mt19937 g1(seed), g2(seed);
+				unsigned long before = g_foreign_entropy;
+				std::vector<std::pair<double, double>> a, b;
+				if(mc::library_exits([&]() { a = Sample_Metropolis_2D(g1, t.pdf, {0.4, 0.7}, 30, 2, 40, dom); b = Sample_Metropolis_2D(g2, t.pdf, {0.4, 0.7}, 30, 2, 40, dom); })) { fail("targets", key, "terminated_process", "ended the process"); continue; }
+				g_cases++;
+				if(g_foreign_entropy != before) { fail("targets", key, "foreign_entropy_used", "random_device/rand/random/getrandom consulted"); g_foreign_entropy = before; }
+				bool same = a.size() == b.size() && g1 == g2;
+				for(size_t i = 0; same && i < a.size(); i++) same = mc::same_bits(a[i].first, b[i].first) && mc::same_bits(a[i].second, b[i].second);
+				if(!same) fail("targets", key, "not_reproducible", "equal generator states gave different chains or left different states");
+				if(a.size() != 30) fail("targets", key, "wrong_number_of_samples", std::to_string(a.size()) + " samples for sample=30");
+				bool inside = false;
+				for(auto& q : a)
+				{
+					if(!dom.empty() && !(q.first >= dom[0] && q.first <= dom[1] && q.second >= dom[2] && q.second <= dom[3])) { fail("targets", key, "outside_domain", "(" + mc::dec(q.first) + "," + mc::dec(q.second) + ")"); break; }
+					bool in = t.pdf(q.first, q.second) > 0;
+					if(inside && !in) { fail("targets", key, "left_the_support", "a chain that had reached the support returned a point where the density vanishes"); break; }
+					inside = inside || in;
+				}
+			}
+		}
+	// rejection and inverse-transform sampling with targets that vanish on part of the domain
+	for(unsigned seed = 0; seed < nseeds; seed++)
+	{
+		if(!mc::mine(unit++)) continue;
+		std::string key = "rejection_and_inverse_transform,seed=" + std::to_string(seed);
+		std::mt19937 g1(seed), g2(seed);
+		unsigned long before = g_foreign_entropy;
+		auto tri = [](double x) { return std::max(0.0, 1.0 - std::fabs(x)); };
+		std::function<double(double, double)> disc = [](double x, double y) { return x * x + y * y < 1 ? 1.0 : 0.0; };
+		auto cdf_plateau = [](double x) { return x < 1 ? 0.5 * x : x < 2 ? 0.5 : 0.5 + 0.5 * (x - 2); };	// no mass on (1,2)
+		V a, b;
+		auto run = [&](std::mt19937& g, V& o) {
+			for(int i = 0; i < 20; i++)
+			{
+				o.push_back(Rejection_Sampling(tri, -3, 3, 1.0, g));
+				auto q = Rejection_Sampling_2D(g, disc, -2, 2, -1.5, 1.5, 1.0);
+				o.push_back(q.first);
+				o.push_back(q.second);
+				o.push_back(Inverse_Transform_Sampling(cdf_plateau, 0, 3, g));
+			}
+		};
+		if(mc::library_exits([&]() { run(g1, a); run(g2, b); })) { fail("targets", key, "terminated_process", "ended the process"); continue; }
+		g_cases++;
+		if(g_foreign_entropy != before) { fail("targets", key, "foreign_entropy_used", "random_device/rand/random/getrandom consulted"); g_foreign_entropy = before; }
+		bool same = a.size() == b.size() && g1 == g2;
+		for(size_t i = 0; same && i < a.size(); i++) same = mc::same_bits(a[i], b[i]);
+		if(!same) fail("targets", key, "not_reproducible", "equal generator states gave different outputs or left different states");
+		for(size_t i = 0; i + 3 < a.size(); i += 4)
+		{
+			if(!(std::fabs(a[i]) < 1)) fail("targets", key, "outside_support", "Rejection_Sampling(triangle) returned " + mc::dec(a[i]));
+			if(!(a[i + 1] * a[i + 1] + a[i + 2] * a[i + 2] < 1)) fail("targets", key, "outside_support", "Rejection_Sampling_2D(disc) returned a point outside the disc");
+			if(!(a[i + 3] >= 0 && a[i + 3] <= 3) || (a[i + 3] > 1 + 1e-6 && a[i + 3] < 2 - 1e-6)) fail("targets", key, "outside_support", "Inverse_Transform_Sampling returned " + mc::dec(a[i + 3]) + " where the CDF is flat");
+		}
+	}
+}
+
 // supplementary (deterministic, not exhaustive): Kolmogorov-Smirnov on real mt19937 streams
 static void supplementary(unsigned long long& unit)
 {
@@ -484,6 +599,7 @@ int main(int argc, char** argv)
 	interleavings(unit);
 	laws(unit);
 	metropolis(unit);
+	targets(unit);
 	supplementary(unit);
 	if(g_foreign_entropy) fail("purity", "whole_run", "foreign_entropy_used", std::to_string(g_foreign_entropy) + " calls to random_device/rand/random/getrandom");
 	mc::count("evaluations", g_cases);
